@@ -1,7 +1,7 @@
 """C01 — no script or input can crash or wedge the embedding process.
 
 proof        : lean/HawkModel/Props/C01.lean over the guard models (HawkModel/Crash.lean) and the tables re-extracted
-               from the working tree on every run (extract/fnc_dispatch.py, loops.py, div_sites.py, flag_sites.py).
+               from the working tree on every run (extract/fnc_dispatch.py, loops.py, div_sites.py, flag_sites.py, stack_sites.py, arg_sites.py, switch_sites.py, subscript_sites.py, retry_sites.py).
 property oracle (independent of the Lean model): generated programs x inputs x trait sets run in-process under
                ASan/UBSan/asserts by harness/crash_h.c; a signal, sanitizer report, assert abort, failure without error
                number or message, or an unanswered halt request is a concrete failing input (shrunk, replayable).
@@ -14,7 +14,7 @@ from .. import common as C
 from . import c01_gen as G
 
 C.CACHE = os.environ.get("HAWKVERIF_CACHE", C.CACHE)
-EXTRACTORS = ["fnc_dispatch.py", "loops.py", "div_sites.py", "flag_sites.py", "stack_sites.py"]
+EXTRACTORS = ["fnc_dispatch.py", "loops.py", "div_sites.py", "flag_sites.py", "stack_sites.py", "arg_sites.py", "switch_sites.py", "subscript_sites.py", "retry_sites.py"]
 SOFT_MS, HARD_MS = 1500, 6000
 NCPU = max(2, min(16, os.cpu_count() or 4))
 ENV = dict(C.ASAN_ENV)
@@ -499,13 +499,14 @@ def correspondence(ctx, exe):
 
 
 # ------------------------------------------------------------------------------------------------------------------
-GEN_OUT = {"fnc_dispatch.py": "FncDispatch.lean", "loops.py": "Loops.lean", "div_sites.py": "DivSites.lean", "flag_sites.py": "FlagSites.lean", "stack_sites.py": "StackSites.lean"}
+GEN_OUT = {"fnc_dispatch.py": "FncDispatch.lean", "loops.py": "Loops.lean", "div_sites.py": "DivSites.lean", "flag_sites.py": "FlagSites.lean", "stack_sites.py": "StackSites.lean",
+           "arg_sites.py": "ArgSites.lean", "switch_sites.py": "SwitchSites.lean", "subscript_sites.py": "SubscriptSites.lean", "retry_sites.py": "RetrySites.lean"}
 
 
 def extract_key(e):
     """the translators are deterministic functions of (their own text, lib/*.[ch]); their output is cached under that key"""
     h = hashlib.sha1()
-    for f in [os.path.join(C.VERIF, "extract", e), os.path.join(C.VERIF, "extract", "c01_clang.py")] + \
+    for f in [os.path.join(C.VERIF, "extract", e), os.path.join(C.VERIF, "extract", "c01_clang.py"), os.path.join(C.VERIF, "extract", "c01_paths.py"), os.path.join(C.VERIF, "extract", "switch_sites.py")] + \
             sorted(os.path.join(C.REPO, "lib", x) for x in os.listdir(os.path.join(C.REPO, "lib")) if x.endswith((".c", ".h"))):
         h.update(f.encode() if not f.startswith(C.REPO) else os.path.basename(f).encode())
         h.update(open(f, "rb").read())
@@ -580,6 +581,28 @@ def table_findings(ctx):
                 notes.append("stack-site run.c:%s %s: the padding for omitted arguments is reserved under %s but pushed whenever fun->nargs > call->nargs" % (m.group(2), m.group(1), m.group(5)))
             elif m.group(3) == "":
                 notes.append("stack-site run.c:%s %s: push without a preceding availability test" % (m.group(2), m.group(1)))
+        for m in re.finditer(r'⟨"([^"]+)", "([^"]+)", (\d+), "((?:[^"\\]|\\.)*)", (\d+), "(\w*)", (\d+), (\d+)⟩', open(os.path.join(p, "ArgSites.lean")).read()):
+            idx, sym, smin, pmin = int(m.group(5)), m.group(6), int(m.group(7)), int(m.group(8))
+            if not idx < (max(smin, pmin) if sym == "" else pmin):
+                notes.append("arg-site %s:%s %s: hawk_rtx_getarg(rtx, %s) but only %d argument(s) are guaranteed there (function table minimum %d, dominating count check %d)" % (
+                    m.group(1), m.group(3), m.group(2), m.group(4), max(smin, pmin) if sym == "" else pmin, smin, pmin))
+        for m in re.finditer(r'⟨"([^"]+)", "([^"]+)", (\d+), "((?:[^"\\]|\\.)*)", "([^"]+)", (\d+), (\d+), (\d+), (\d+), (true|false), \.(\w+), \.(\w+)⟩', open(os.path.join(p, "SwitchSites.lean")).read()):
+            ok = (m.group(9) == "0" and m.group(8) == "0") or m.group(10) == "true" or m.group(12) == "error"
+            if not ok and (m.group(1), m.group(2), m.group(5)) != ("run.c", "set_global", "hawk_gbl_id_t"):
+                notes.append("switch-site %s:%s %s: switch (%s) over %s has no label for %s of its %s values and no default" % (
+                    m.group(1), m.group(3), m.group(2), m.group(4), m.group(5), m.group(8), m.group(6)))
+        openf = set(re.findall(r'\("([^"]+)", "([^"]+)"\)', open(os.path.join(C.LEAN, "HawkModel", "Props", "C01.lean")).read().split("def openSubscriptFunctions", 1)[-1].split("]", 1)[0]))
+        for m in re.finditer(r'⟨"([^"]+)", "([^"]+)", (\d+), "((?:[^"\\]|\\.)*)", (\d+), "((?:[^"\\]|\\.)*)", \.(\w+), (\d+)⟩', open(os.path.join(p, "SubscriptSites.lean")).read()):
+            n, cls, h = int(m.group(5)), m.group(7), int(m.group(8))
+            ok = {"lit": h < n, "bool": 2 <= n, "below": h <= n, "enumT": h <= n, "open": (m.group(1), m.group(2)) in openf}[cls]
+            if not ok or (cls == "enumT" and h != n):
+                notes.append("subscript-site %s:%s %s: %s[%s] with %s (array length %d)" % (m.group(1), m.group(3), m.group(2), m.group(4), m.group(6),
+                             {"lit": "constant index %d" % h, "below": "index only known to be below %d" % h, "enumT": "an enum index with %d values" % h,
+                              "open": "an index without a recognised bound, in a function not listed in openSubscriptFunctions", "bool": "a 0/1 index"}[cls], n))
+        for m in re.finditer(r'⟨"([^"]+)", "([^"]+)", (\d+), "([^"]*)", "([^"]*)", "([^"]*)", "([^"]*)", "([^"]*)", \.(\w+)⟩', open(os.path.join(p, "RetrySites.lean")).read()):
+            if m.group(9) == "other" or m.group(7) != "(%s<=%s)" % (m.group(5), m.group(6)):
+                notes.append("retry-site %s:%s %s: the loop retrying %s() steps `%s = %s` with give-up test `%s`: no known decreasing measure (the loop may never give up)" % (
+                    m.group(1), m.group(3), m.group(2), m.group(4), m.group(5), m.group(8), m.group(7)))
     except OSError:
         pass
     return notes
@@ -645,6 +668,14 @@ def cli_family(ctx, libdir):
                ["--flexmap", "-f", P("p1.hawk")], ["-F"], ["-v"], ["--"], []):
         extra.append((fl, None, [P("in1.txt"), "y=2", P("in2.txt")]))
         extra.append((fl, None, []))
+    # a memory limit (-m) turns ordinary sizes into failing allocations: the back-off / retry paths of arrays, strings and format buffers
+    for mem in ("1000000", "300000", "5000000"):
+        for prog in ('BEGIN { x = hawk::array(); x[0] = 1; x[70000000000000] = 2; print "not reached"; }', 'BEGIN { x = hawk::array(1, 2); x[200000] = 2; x[3000000] = 3; print length(x); }',
+                     'BEGIN { x = sprintf("%300000d", 1); printf @b"%200000d|\n", 7 > "/dev/null"; print "alive"; }', 'BEGIN { s = sprintf("%400000s", "a"); t = s s s s; gsub(/ /, "xy", t); print length(t); }',
+                     'BEGIN { for (i = 0; i < 100000; i++) m[i] = i "x"; print length(m); }', '{ $100000 = "x"; print NF; $0 = $0 $0; }', 'BEGIN { x = hawk::array(); x[4611686018427387904] = 1; x[2305843009213693951] = 1; print 1 }'):
+            extra.append((["-m", mem], prog, []))
+    for prog in ('BEGIN { x = hawk::array(); x[0] = 1; x[70000000000000] = 2; print "not reached"; }', 'BEGIN { x = hawk::array(); x[1099511627776] = 2; x[36028797018963968] = 1; }'):
+        extra.append(([], prog, []))
     extra.append((["-f", P("p2.hawk"), "-c", "main"], None, ["a1", "", "\u00e9", "x" * 5000]))
     extra.append((["-c", "main"], "function main(...) { return @argc }", ["1"] * 300))
     for _ in range(40 if ctx.tier == "quick" else 600):
@@ -733,7 +764,7 @@ def run(ctx):
 
     # ---- campaign ----
     per = 120
-    deadline = max(time.time() + 10, t0 + 44) if ctx.tier == "quick" else t0 + 17 * 60
+    deadline = max(time.time() + 25, t0 + 44) if ctx.tier == "quick" else t0 + 17 * 60     # a fresh tree costs a long build first: still give the campaign 25 s
     nbatch_cap = 520 if ctx.tier == "quick" else 6000
     samples, lost_total, secs = [], 0, []
     submitted = 0
@@ -869,7 +900,8 @@ def run(ctx):
                     "with the Lean driver; plus the CLI front end run with -v/-F/option combinations (built-in, duplicate, reserved and malformed names; regex and empty separators). distinct_nontrivial = distinct (program, traits, input) that parsed and executed >= 3 statements" % HARD_MS,
                     samples, extra_cov=cov,
                     trusted=["memory safety of the unmodelled interpreter is exhibited only by the sanitizer campaign (sampling); the theorems cover the guards",
-                             "translators extract/{fnc_dispatch,loops,div_sites,flag_sites,stack_sites}.py + clang-14 AST (fail closed)",
+                             "translators extract/{fnc_dispatch,loops,div_sites,flag_sites,stack_sites,arg_sites,switch_sites,subscript_sites,retry_sites}.py + clang-14 AST (fail closed)",
+                             "arg_index_below_arity: a builtin is never entered with fewer arguments than its function-table minimum (parse.c parse_fncall / run.c eval_fncall check the spec); facts about the count are syntactic dominators (extract/c01_paths.py)",
                              "argument spec r/R => HAWK_VAL_REF (run.c __eval_call), valtoint/valtonum results in range",
                              "pipes restricted to an allow-list, files to the scratch directory, sys::/ffi::/sed:: excluded (harness safety)"],
                     assumptions=["string lengths < 2^63", "halt requests are repeated (as a user pressing ^C again): hawk_rtx_loop clears a request made before it starts"])
